@@ -22,10 +22,31 @@ PROTO_RULE = ("each run draws protocol, n, t, the Byzantine set (<= t, anywhere)
 
 ENGINE_INFO = {
     "dkgsim": "n real DKG instances over a simulated transport with round timers, Byzantine mutator/injector (proto mode) and arbitrary call histories (chaos mode)",
+    "thrnet": "threshold-signing round over a lossy/duplicating/reordering network with Byzantine signers; collectors use the stateful object or the stateless reconstruction; sequential reference model checked call by call",
     "prgcrash": "consumer process + simulated checkpoint disk with crash/restart and write faults",
 }
 
+THR_RULE = ("each run draws n (2..12, thorough also 8,9,16,17,24,25,64,65,200,254), t in {1,(n-1)/2,n-1,random}, seed, message, tag, up to 3 Byzantine signers, 1-3 collectors each in a mode "
+            "(VerifyAndAdd, VerifyShare+TrustedAdd, blind TrustedAdd, stateless list), per-message drop/duplicate/out-of-range-origin faults and the complete delivery order from the choice stream; "
+            "Byzantine shares: other signer's share, signature of another message, point outside G1, off-curve x, x>=p, cleared compression bit, infinity, negated, lengths 0/47/49, random bytes. "
+            "Non-trivial = a fault fired or a non-FIFO delivery was chosen; distinct = distinct hash of (n,t,collector modes, per-delivery (mode, share kind, origin fault))")
+THR_REAL = ["BLSThresholdKeyGen, NewBLSThresholdSignatureParticipant/Inspector, SignShare, VerifyShare, TrustedAdd, VerifyAndAdd, HasShare, EnoughShares, ThresholdSignature, VerifyThresholdSignature, BLSReconstructThresholdSignature incl. the C layer (real code, unmodified)"]
+THR_STUB = ["network between signers and collectors (drop, duplicate, reorder, origin faults)", "Byzantine signers (harness math/big arithmetic for points outside G1)", "sequential reference model sim/thrmodel (written from thresholdsign.go's documentation)"]
+
 CHECKS = {
+    "C06": {
+        "batches": [
+            {"engine": "thrnet", "mode": "", "runs": {"quick": 40000, "thorough": 700000}, "budget": {"quick": 75, "thorough": 1500}},
+            {"engine": "thrnet", "mode": "big", "runs": {"quick": 32, "thorough": 1600}, "budget": {"quick": 60, "thorough": 1500}},
+        ],
+        "rule": THR_RULE + "; mode big = only the large group sizes (signer sets crossing the 8-indices-per-limb batching of the Lagrange code)",
+        "time_unit": "share deliveries to collectors",
+        "real": THR_REAL, "stub": THR_STUB,
+        "assumptions": ["uniqueness is relative to PublicKey.Verify (C01 is not decidable by this technique)", "validity of a share is known from its label (genuine share of signer k), never recomputed",
+                        "key-share consistency uses the library's G2 subtraction and Equals (trusted)"],
+        "expected_probes": ["keygen_consistent", "stateful_reconstruction_succeeded", "stateful_reconstruction_rejected_invalid_share", "stateful_not_enough", "stateless_reconstruction_succeeded",
+                            "stateless_with_invalid_share", "stateless_bad_signers", "stateless_not_enough", "healed_reconstruction", "subsets_enumerated"],
+    },
     "C07": {
         "batches": [
             {"engine": "dkgsim", "mode": "", "runs": {"quick": 40000, "thorough": 700000}, "budget": {"quick": 75, "thorough": 1500}},
@@ -48,9 +69,10 @@ CHECKS = {
     },
     "C09": {
         "batches": [
-            {"engine": "dkgsim", "mode": "chaos", "runs": {"quick": 150000, "thorough": 3000000}, "budget": {"quick": 60, "thorough": 1500}},
+            {"engine": "dkgsim", "mode": "chaos", "runs": {"quick": 120000, "thorough": 3000000}, "budget": {"quick": 60, "thorough": 1500}},
+            {"engine": "thrnet", "mode": "", "runs": {"quick": 16000, "thorough": 400000}, "budget": {"quick": 45, "thorough": 1200}},
         ],
-        "rule": ("chaos mode: each run draws protocol, n<=5, t, dealer and a weighted mix of API calls (swarm), then 8..68 (thorough ..158) calls on live instances: deliveries of real messages to nodes in any "
+        "rule": ("thrnet batch: see C06 (every call on the stateful inspector/participant and the stateless reconstruction runs under recover; shares of length 0/47/49, indices out of range). chaos mode: each run draws protocol, n<=5, t, dealer and a weighted mix of API calls (swarm), then 8..68 (thorough ..158) calls on live instances: deliveries of real messages to nodes in any "
                  "phase, Start, Start with a too short seed, NextTimeout, End, ForceDisqualify with in/out-of-range indices, handlers with unauthenticated origins {-1,n,255,256,2^31-1,-2^31} "
                  "and raw payloads (mutated real messages, length/tag grammar 0,1,2,exact-1,exact,exact+1,10kB, points outside G2, x>=p). Every call runs under recover. Non-trivial = at least one "
                  "rejected or faulty call; distinct = distinct hash of the (action kind, model phase) sequence"),
